@@ -1,4 +1,4 @@
-import AmVerif.Gen.Tables
+import AmVerif.Model.World
 import AmVerif.Gen.Skel
 /-!
 # C13 — every stored value is dropped exactly once; type erasure never lies (work in progress)
@@ -7,15 +7,6 @@ namespace AmVerif.Props.C13
 open AmVerif.Gen AmVerif.Model
 
 /-! ## Type erasure -/
-
-/-- What the untyped entry knows about its type, and what a view at type `req` yields, as the
-extracted facts say the code computes it: the stored type id is the one of the value the entry
-was created with, `is::<T>` compares it with `TypeId::of::<T>()`, and both reinterpreting casts
-sit under `if self.is::<T>()`. -/
-def viewAs (stored req : Nat) : Option Nat :=
-  if isComparesTypeId && entryStoresOwnTypeId && downcastRefGuarded && downcastBoxGuarded && publicViewsUseGuardedCasts then
-    (if stored = req then some stored else none)
-  else some req   -- an unguarded cast would reinterpret
 
 /-- **An untyped handle can be viewed only as the type it was created with**: asking for any other
 type yields `None` (or the `wrong handle type` panic), never a reinterpretation. -/
